@@ -189,3 +189,32 @@ prop("C13", "fault_enumeration",
      ],
      ["'short bounded delay' is read as 100 ms of virtual time after the context ended",
       "for a batch the statement only requires the call to be marked failed, not a particular error"])
+
+
+prop("C18", "exploration",
+     "property-based testing (rapid) with generated action scripts on one region client over a harness-owned in-memory "
+     "connection under virtual time; invariant 'deadline armed <=> requests outstanding' at every quiescence point",
+     "Generated scripts of sends (incl. the unlucky scheduling where Write returns after the response was consumed), "
+     "answers in any order, cancellations and pauses; exact virtual-time arithmetic on the read deadline and on the "
+     "failure instant.",
+     "Trusted: memconn's deadline semantics (mirror net.Conn), synctest virtual time.",
+     [
+         {"test": "TestC18_ReadDeadline", "quick": {"checks": 6000, "timeout": 300},
+          "thorough": {"checks": 80000, "shards": 16, "timeout": 2400}},
+     ],
+     [])
+
+prop("C03", "fault_enumeration",
+     "property-based testing (rapid) of workloads x exhaustive enumeration of fault positions per workload, on one "
+     "region client over a harness-owned in-memory connection under virtual time",
+     "For every generated workload every position of the drawn fault family is executed (k-th connection operation "
+     "fails incl. partial writes; external Close at operation k; server-fatal frame / garbage / truncation / close / "
+     "silence at request j); oracle: exactly-once completion with ServerError, immediate refusal afterwards, no "
+     "goroutine left, no deadlock.",
+     "Trusted: memconn fault injection; goroutine interleavings between the failing paths are sampled (2 repetitions per "
+     "position), not enumerated.",
+     [
+         {"test": "TestC03_ConnectionFailure", "quick": {"checks": 1500, "timeout": 300},
+          "thorough": {"checks": 15000, "shards": 16, "timeout": 2400}},
+     ],
+     ["calls whose own context ended may receive zero or one result"])
